@@ -15,9 +15,9 @@ import (
 func init() {
 	Registry["C16"] = c16
 	Metas["C16"] = Meta{Level: "other", NeedCG: true,
-		Technique: "static analysis: receiver-provenance of every IncrementAccum call, who-may-write + effect-set check of the cached fields, finite-domain decision table of CompareAccum, hidden-state (non-persisted field) lint on the persisted validator set",
-		Explain: "Static analysis of gemmill/types/validator_set.go and its callers. Decided: (R1) every IncrementAccum call has a receiver that is a fresh Copy()/NewValidatorSet()/literal on all paths (never a shared set loaded from a field); (R2) the set's slice is mutated only by Add/Update/Remove (and constructors), and every such mutation path that reports success stores proposer=nil and totalVotingPower=0; totalVotingPower has no other non-zero writer than its lazy getter; accessors hand out copies; (R3) CompareAccum's decision table over (accum order x address order x nil receiver) is the strict total order 'higher accum, ties by lower address' and panics only on identical addresses; accumComparable.Less is strict '>'; (R4) no non-persisted field of the persisted ValidatorSet carries state that cannot be recomputed (only lazy getters and copies may write it); (R5) Add keeps the slice sorted and duplicate-free, NewValidatorSet sorts before first use. NOT decided: the proportionality counts, batched-vs-single increment equality (numeric; an independent experiment during seeding showed IncrementAccum(k) already differs from k x IncrementAccum(1) on the pinned tree — outside what a static rule can decide), overflow.",
-		Assume: []string{"go-common Heap is a correct priority queue", "bytes.Compare is a total order on addresses"},
+		Technique: "static analysis: receiver-provenance of every IncrementAccum call, who-may-write + effect-set check of the cached fields, finite-domain decision table of CompareAccum, hidden-state (non-persisted field) lint on the persisted validator set, slot-bookkeeping obligations of the priority queue",
+		Explain: "Static analysis of gemmill/types/validator_set.go and its callers. Decided: (R1) every IncrementAccum call has a receiver that is a fresh Copy()/NewValidatorSet()/literal on all paths (never a shared set loaded from a field); (R2) the set's slice is mutated only by Add/Update/Remove (and constructors), and every such mutation path that reports success stores proposer=nil and totalVotingPower=0; totalVotingPower has no other non-zero writer than its lazy getter; accessors hand out copies; (R3) CompareAccum's decision table over (accum order x address order x nil receiver) is the strict total order 'higher accum, ties by lower address' and panics only on identical addresses; accumComparable.Less is strict '>'; (R4) no non-persisted field of the persisted ValidatorSet carries state that cannot be recomputed (only lazy getters and copies may write it); (R5) Add keeps the slice sorted and duplicate-free, NewValidatorSet sorts before first use; (R6) the go-common priority queue behind IncrementAccum keeps pq[k].index == k in Push/Swap, and Update/Heap.Update/Peek/Less/Pop address the root and the recorded slot. NOT decided: the proportionality counts, batched-vs-single increment equality (numeric; an independent experiment during seeding showed IncrementAccum(k) already differs from k x IncrementAccum(1) on the pinned tree — outside what a static rule can decide), overflow.",
+		Assume: []string{"container/heap's Push/Fix/Pop are correct given the Interface contract checked by R6", "bytes.Compare is a total order on addresses"},
 	}
 }
 
@@ -27,6 +27,7 @@ func c16(c *Ctx) {
 	c16R3(c)
 	c16R4(c)
 	c16R5(c)
+	c16R6(c)
 }
 
 func c16R1(c *Ctx) {
@@ -329,5 +330,132 @@ func c16R5(c *Ctx) {
 			}
 		}
 		c.R.Ob(rule, "Hash:in-slice-order", ok && !rangeMap, c.P.Pos(f.F.Pos()), fname(f), "validator-set hash must hash element i at position i (sorted slice), without map iteration")
+	}
+}
+
+// c16R6: the position bookkeeping of the priority queue behind IncrementAccum's heap
+// (pq[k].index == k for every k; Heap.Update re-sifts the slot recorded in the item).
+func c16R6(c *Ctx) {
+	rule := c.R.Rule("R6", "heap position bookkeeping (IncrementAccum re-sifts the proposer through Heap.Update -> heap.Fix(pq, item.index)): priorityQueue.Push records the pushed item's slot (len before the append, or len-1 after it); Swap exchanges two slots and re-records both indices; Update fixes at the item's recorded index; Heap.Update updates the root item; Less delegates to the priorities' Less with the arguments in order", 7)
+	pk := "gemmill/modules/go-common."
+	if f := c.Anchor(rule, pk+"(*priorityQueue).Push"); f != nil {
+		ok := false
+		detail := "no store to item.index found"
+		var at ssa.Instruction
+		if len(f.F.Blocks) >= 1 {
+			// position of the store of the appended slice
+			appendAt := -1
+			instrs := f.F.Blocks[0].Instrs
+			for i, ins := range instrs {
+				if st, isSt := ins.(*ssa.Store); isSt && exprOf(st.Addr) == "a0" {
+					appendAt = i
+				}
+			}
+			for i, ins := range instrs {
+				st, isSt := ins.(*ssa.Store)
+				if !isSt || !strings.HasSuffix(exprOf(st.Addr), ".index") {
+					continue
+				}
+				at = ins
+				lenPos := func(v ssa.Value) int {
+					call, isCall := v.(*ssa.Call)
+					if !isCall || exprOf(call) != "len(a0)" {
+						return -1
+					}
+					for k, x := range instrs {
+						if x == ssa.Instruction(call) {
+							return k
+						}
+					}
+					return -1
+				}
+				if lp := lenPos(st.Val); lp >= 0 {
+					ok = appendAt >= 0 && lp < appendAt
+					detail = fmt.Sprintf("index = len(*pq) evaluated %s the append", map[bool]string{true: "before", false: "AFTER"}[ok])
+				} else if bo, isBo := st.Val.(*ssa.BinOp); isBo && bo.Op.String() == "-" && exprOf(bo.Y) == "1" {
+					if lp := lenPos(bo.X); lp >= 0 {
+						ok = appendAt >= 0 && lp > appendAt
+						detail = "index = len(*pq)-1"
+					}
+				} else {
+					detail = "index = " + exprOf(st.Val)
+				}
+				_ = i
+			}
+		}
+		pos := c.P.Pos(f.F.Pos())
+		if at != nil {
+			pos = c.Pos(at)
+		}
+		c.R.Ob(rule, "Push:index=slot-of-appended-item", ok && len(f.F.Blocks) == 1, pos, fname(f), "the pushed item must record the slot it is appended at ("+detail+"); a wrong index makes Update/heap.Fix re-sift another slot and the proposer order diverges from the accum order")
+	}
+	if f := c.Anchor(rule, pk+"(priorityQueue).Swap"); f != nil {
+		have := map[string]string{}
+		order := []string{}
+		for _, st := range f.Stores(func(string) bool { return true }) {
+			have[exprOf(st.Addr)] = exprOf(st.Val)
+			order = append(order, exprOf(st.Addr))
+		}
+		ok := have["a0[a1]"] == "a0[a2]" && have["a0[a2]"] == "a0[a1]"
+		c.R.Ob(rule, "Swap:exchanges-slots", ok, c.P.Pos(f.F.Pos()), fname(f), fmt.Sprintf("stores: %v", have))
+		ok2 := have["a0[a1].index"] == "a1" && have["a0[a2].index"] == "a2"
+		// index stores come after the exchange
+		idx := func(s string) int {
+			for i, o := range order {
+				if o == s {
+					return i
+				}
+			}
+			return -1
+		}
+		ok2 = ok2 && idx("a0[a1].index") > idx("a0[a2]") && idx("a0[a2].index") > idx("a0[a1]") && idx("a0[a1].index") > idx("a0[a1]")
+		c.R.Ob(rule, "Swap:re-records-both-indices", ok2, c.P.Pos(f.F.Pos()), fname(f), fmt.Sprintf("stores in order: %v", order))
+	}
+	if f := c.Anchor(rule, pk+"(*priorityQueue).Update"); f != nil {
+		ok := false
+		for _, ci := range f.CallsTo(cfgx.Named("container/heap.Fix")) {
+			ok = callArg(ci, 0) == "a0" && callArg(ci, 1) == "a1.index"
+		}
+		c.R.Ob(rule, "Update:Fix(pq,item.index)", ok, c.P.Pos(f.F.Pos()), fname(f), "Update must re-sift the slot recorded in the updated item")
+	}
+	if f := c.Anchor(rule, pk+"(*Heap).Update"); f != nil {
+		ok := false
+		for _, ci := range f.CallsTo(cfgx.Named(pk + "(*priorityQueue).Update")) {
+			ok = callArg(ci, 1) == "a0.pq[0]" && callArg(ci, 2) == "a1" && callArg(ci, 3) == "a2"
+		}
+		c.R.Ob(rule, "Heap.Update:updates-root", ok, c.P.Pos(f.F.Pos()), fname(f), "Heap.Update(value, priority) replaces the root item (the one Peek returned)")
+	}
+	if f := c.Anchor(rule, pk+"(*Heap).Peek"); f != nil {
+		ok := false
+		for _, r := range f.Returns() {
+			vs := f.ReturnValues(r)
+			if len(vs) == 1 && exprOf(vs[0]) == "a0.pq[0].value" {
+				ok = true
+			}
+		}
+		c.R.Ob(rule, "Heap.Peek:returns-root", ok, c.P.Pos(f.F.Pos()), fname(f), "Peek returns the root's value")
+	}
+	if f := c.Anchor(rule, pk+"(priorityQueue).Less"); f != nil {
+		ok := false
+		for _, ci := range f.Calls() {
+			if ci.Common().IsInvoke() && ci.Common().Method.Name() == "Less" {
+				ok = exprOf(ci.Common().Value) == "a0[a1].priority" && len(ci.Common().Args) == 1 && strings.HasPrefix(exprOf(ci.Common().Args[0]), "a0[a2].priority")
+			}
+		}
+		c.R.Ob(rule, "Less:pq[i].priority.Less(pq[j].priority)", ok, c.P.Pos(f.F.Pos()), fname(f), "argument order decides which validator is on top")
+	}
+	if f := c.Anchor(rule, pk+"(*priorityQueue).Pop"); f != nil {
+		ok := false
+		for _, st := range f.Stores(func(a string) bool { return a == "a0" }) {
+			ok = exprOf(st.Val) == "a0[0:(len(a0) - 1)]"
+		}
+		ret := false
+		for _, r := range f.Returns() {
+			vs := f.ReturnValues(r)
+			if len(vs) == 1 && strings.HasPrefix(exprOf(vs[0]), "a0[(len(a0) - 1)]") {
+				ret = true
+			}
+		}
+		c.R.Ob(rule, "Pop:removes-and-returns-last", ok && ret, c.P.Pos(f.F.Pos()), fname(f), "container/heap moves the minimum to the last slot before calling Pop")
 	}
 }
